@@ -150,11 +150,13 @@ def ceemdLoop (σ : Nat → Schedule) (F Fn : Sig → Sig) (mode : Mode) (x : Si
     ceemdLoop σ F Fn mode x s (c + 2) (imf ++ [next]) (ceemdNoiseStep (σ (c + 1)) Fn noise)
 
 /-- `complete_ensemble_sift` with the parent matrix `M` (columns) and `stages` loop iterations.
-    As in the code the first fan-out receives the already scaled matrix *and* the scale. -/
+    As in the (repaired) code the first fan-out receives the already scaled matrix and NO further scale
+    (`noise_scaling=None`), like every later fan-out.  (The pinned code passed the scale once more: the
+    first-stage noise was `scale²·M_i`.) -/
 def ceemd (σ : Nat → Schedule) (F Fn : Sig → Sig) (mode : Mode) (scale : Rat) (M : List Sig) (x : Sig)
     (stages : Nat) : List Sig × List Sig :=
   let noise0 := M.map (Sig.smul scale)
-  let imf0 := ceemdImf (σ 0) F mode (some scale) x noise0
+  let imf0 := ceemdImf (σ 0) F mode none x noise0
   ceemdLoop σ F Fn mode x stages 2 [imf0] (ceemdNoiseStep (σ 1) Fn noise0)
 
 /-! ## protocol -/
